@@ -478,7 +478,7 @@ class Observation(BaseSourceSpectrum):
                 raise exceptions.SynphotError('Vega spectrum is missing.')
             num = self.integrate(wavelengths=wavelengths)
             den = (vegaspec * self.bandpass).integrate(
-                integration_type='trapezoid')
+                wavelengths=wavelengths, integration_type='trapezoid')
             utils.validate_totalflux(num)
             utils.validate_totalflux(den)
             return (2.5 * (math.log10(den.value) -
@@ -509,7 +509,7 @@ class Observation(BaseSourceSpectrum):
         elif flux_unit.physical_type in (
                 'spectral flux density', 'photon flux density',
                 'photon flux density wav'):
-            w_pivot = self.bandpass.pivot()
+            w_pivot = self.bandpass.pivot(wavelengths=wavelengths)
             eff_stim = units.convert_flux(w_pivot, val, flux_unit)
         else:
             raise exceptions.SynphotError(
